@@ -24,6 +24,14 @@ Definition fbarg_of (a : list arg) : fbarg :=
 
 (* constructor `id` of the boot-information crate (id = tag type number; 22 = a custom
    tag built with new_boxed::<DynSizedStructure<TagHeader>>) applied to its arguments *)
+(* EFIMemoryMapTag::new_from_descs(&[EFIMemoryDesc]): the descriptors' 40-byte images (4 bytes of padding behind ty,
+   zero in the harness' array), descriptor size 40, version 1 *)
+Definition efi_descs_bytes (descs : list arg) : list byte :=
+  flat_map (fun d => match al d with
+                     | [ty; ph; vi; pg; att] => (enc32 (an ty) ++ enc32 0 ++ enc64 (an ph) ++ enc64 (an vi) ++ enc64 (an pg) ++ enc64 (an att))%list
+                     | _ => []
+                     end) descs.
+
 Definition run_ctor_img (p : profile) (id : N) (args : list arg) : res (list byte) :=
   let k := nth_kind id in
   let sized vals := Val (ctor_sized k vals PAD) in
@@ -57,6 +65,7 @@ Definition run_ctor_img (p : profile) (id : N) (args : list arg) : res (list byt
   | 21, [AN a] => sized [VN a]
   | 22, [AN typ; AB payload] =>
       new_boxed p HTagH (tdesc_generic HTagH) (enc32 typ ++ enc32 0)%list [payload] PAD
+  | 23, [AL descs] => new_efi_mmap p 40 1 (efi_descs_bytes descs) PAD
   | _, _ => Fault FFuel
   end.
 
@@ -77,8 +86,8 @@ Definition run_ctor (p : profile) (id : N) (args : list arg) : list string :=
   line "ctor" (sRes sImg r)
   :: match r with
      | Val img =>
-         if id <=? 21 then
-           let k := nth_kind id in
+         if (id <=? 21) || (id =? 23) then
+           let k := if id =? 23 then KEfiMmap else nth_kind id in
            let m := {| m_base := 0; m_bytes := img |} in
            (line "as_bytes" (sRes (fun b => sN (len b)) (as_bytes 0 img)) :: lines_kind p k m (self_tref k img))%list
          else []
